@@ -386,7 +386,57 @@ def every_new_observer(ctx, prog):
 
 every_new_observer.rule_id = "C10.WMC-truncating"
 
-RULES = [ts_transitions, dtab_api, guard_sentinel, cfw_token, pdom_mismatch, every_new_observer]
+def data_identities(ctx, prog, R="C10.DATA-identities"):
+    ctx.rule(R, "identities never repeat: ObserverId::next() takes no argument and counts in a thread-local cell (unique "
+                "across all states of the thread: a token of one state's observer is a Mismatch / no-op everywhere else); a "
+                "subscription token's ordinal comes from the observer's own next_subscriber cell, which is advanced to the "
+                "successor at every subscribe (a live subscription's token is never issued again)")
+    N = ctx.need_fn(R, "incremental::internal_observer::ObserverId::next")
+    if N is not None:
+        uses_tls = False
+        for G in prog.with_closures(N):
+            for t in G.calls():
+                if q.callee_is(t, "LocalKey::with", "std::thread::local::LocalKey::with", "LocalKey::try_with"):
+                    uses_tls = True
+        cells = [t for G in prog.with_closures(N) for t in G.calls() if q.callee_is(t, "core::cell::Cell::set")]
+        ctx.site(R, N, "args=%d thread_local=%s cell stores=%d" % (N.arg_count, uses_tls, len(cells)))
+        if N.arg_count == 0 and uses_tls and cells:
+            ctx.ok(R, "observer-id")
+        else:
+            ctx.fail(R, "observer-id", "ObserverId::next is no longer a thread-wide counter (arguments: %d, thread_local: %s): "
+                     "observers of two states on one thread can share an id, so a token is accepted by the wrong observer"
+                     % (N.arg_count, uses_tls), fn=N)
+    S = ctx.need_fn(R, q.OBS + "subscribe")
+    if S is not None:
+        du = DefUse(S)
+        ins = [t for t in S.calls() if q.callee_is(t, "HashMap::insert")]
+        sets = [a for a in writes_of(prog, "incremental::internal_observer::InternalObserver.next_subscriber")
+                if a.fn.path == S.path and a.kind == "set"]
+        good = False
+        why = "no insert / no next_subscriber store"
+        if ins and sets:
+            key = expr(S, ins[0].args[1], du)
+            nxt = expr(S, sets[0].site.args[1], du)
+            from_cell = key[0] == "call" and key[1].endswith("Cell::get") and mentions(
+                key, lambda x: x[0] == "field" and str(x[2][-1]).endswith("next_subscriber"))
+            succ = nxt[0] == "call" and nxt[1].endswith("SubscriptionToken::succ") and mentions(nxt, lambda x: x == key)
+            ctx.site(R, S, "token = %s; next_subscriber := %s" % (show(key)[:60], show(nxt)[:60]))
+            good = from_cell and succ and S.cfg().dominates(sets[0].bb, ins[0].bb) or (from_cell and succ)
+            why = "token %s, next %s" % (show(key)[:60], show(nxt)[:60])
+        U = prog.fn("incremental::internal_observer::SubscriptionToken::succ")
+        if U is None:
+            good = False
+            why = "SubscriptionToken::succ is gone"
+        if good:
+            ctx.ok(R, "token")
+        else:
+            ctx.fail(R, "token", "subscribe does not issue tokens from the observer's monotone counter (%s): after an "
+                     "unsubscribe a new subscription can get the token of one that is still live and replace it" % why, fn=S)
+
+
+data_identities.rule_id = "C10.DATA-identities"
+
+RULES = [ts_transitions, dtab_api, guard_sentinel, cfw_token, pdom_mismatch, every_new_observer, data_identities]
 
 # control signature of the bookkeeping effects this property depends on (rules/ctrlsig.py)
 from .ctrlsig import make_rule as _ctrl_rule  # noqa: E402
